@@ -4,7 +4,7 @@ import json, subprocess, sys, os
 prop, wt = sys.argv[1].upper(), sys.argv[2]
 tier = sys.argv[3] if len(sys.argv) > 3 else "quick"
 tag = sys.argv[4] if len(sys.argv) > 4 else "seed"
-for i in (1, 2, 3):
+for i in (1, 2, 3, 4, 5):
     if not os.path.exists(os.path.join(wt, "_out", "patch%d.diff" % i)):
         print(prop, "seed%d" % i, "missing")
         continue
